@@ -418,7 +418,7 @@ func c19r5(rc *core.RC) {
 				path := core.PathTo(md.Body, ret)
 				for j := len(path) - 1; j >= 0; j-- {
 					if ifs, ok := path[j].(*ast.IfStmt); ok {
-						where = "if " + core.Src(p.Fset, ifs.Cond)
+						where = "if " + core.Shape(p.Fset, minfo, md, ifs.Cond)
 						break
 					}
 				}
